@@ -282,11 +282,24 @@ DestPart(im, clip) ==
 (* source side, translated to destination space: (tx, ty) = (dest_x - src_x, dest_y - src_y) *)
 ClipBySource(R, im, clip, tx, ty) == IF SourceClipOn(im) THEN Inter(R, Shift(clip, tx, ty)) ELSE R
 
+(* The alpha map of a source or mask is part of that source: when the alpha-map image carries a clip that is itself *)
+(* enabled for sources (set, clip_sources, client clip - all on the alpha-map image), it clips too, placed at the   *)
+(* alpha origin.  amc = <<>> or <<[ox, oy, r]>> (records built without the field have none).                         *)
+(* pixman consults the clip of a MASK's alpha map only when the mask has a clip region of its own (whatever its      *)
+(* flags); the cases generated keep to that, so that nothing is demanded of the combination the statement leaves out. *)
+AmClip(im) == IF "amc" \in DOMAIN im THEN im.amc ELSE <<>>
+ClipByAlphaMap(R, im, tx, ty) ==
+    IF im.present /\ AmClip(im) # <<>>
+    THEN Inter(R, Shift(AmClip(im)[1].r, tx + AmClip(im)[1].ox, ty + AmClip(im)[1].oy))
+    ELSE R
+
 (* rq = [sx, sy, mx, my, dx, dy, w, h] *)
 CompositeRegionOf(im, rg, rq) ==
     LET d  == Inter(RectOf(rq.dx, rq.dy, rq.w, rq.h), DestPart(im.dst, rg.dst.r))
         s  == ClipBySource(d, im.src, rg.src.r, rq.dx - rq.sx, rq.dy - rq.sy)
-    IN  ClipBySource(s, im.mask, rg.mask.r, rq.dx - rq.mx, rq.dy - rq.my)
+        s2 == ClipByAlphaMap(s, im.src, rq.dx - rq.sx, rq.dy - rq.sy)
+        m  == ClipBySource(s2, im.mask, rg.mask.r, rq.dx - rq.mx, rq.dy - rq.my)
+    IN  IF im.mask.hc THEN ClipByAlphaMap(m, im.mask, rq.dx - rq.mx, rq.dy - rq.my) ELSE m
 
 CompositeRegion(rq) == CompositeRegionOf(img, reg, rq)
 
